@@ -26,3 +26,7 @@ open RdfModel
 #print axioms RdfModel.C18.pipe_ttl_preserves_partial
 #print axioms RdfModel.C18.pipe_rdfjson_preserves_partial
 #print axioms RdfModel.C18.Witness.nq_roundtrip
+#print axioms RdfModel.C18.extension_decides_witness
+#print axioms RdfModel.C18.extension_decides_false
+#print axioms RdfModel.C18.extension_decides_partial
+#print axioms RdfModel.C18.invalid_label_witness
